@@ -16,6 +16,9 @@
 #include <pthread.h>
 #include <time.h>
 #include <unistd.h>
+#include <sys/wait.h>
+#include <signal.h>
+#include <new>
 #include <atomic>
 #include <chrono>
 #include <condition_variable>
@@ -93,6 +96,45 @@ int pthread_cond_clockwait(pthread_cond_t *c, pthread_mutex_t *m, clockid_t clk,
 }
 }
 
+// ---------------------------------------------------------------- buffer allocations made observable (M-class)
+// AsyncPipe's Buffer allocates its storage with `new uint8_t[cap]`: replacing the array forms of operator
+// new/delete (malloc/free underneath, so the sanitizers still see every block) lets the harness count how many
+// buffers of the configured size are alive — `buff_num_` itself is private.  Only array allocations of exactly
+// g_track_size bytes made while a pipe is live are counted; nothing else in this process uses new[] of that size.
+static std::atomic<size_t> g_track_size{0};
+static std::atomic<long> g_live_bufs{0};
+static std::atomic<long> g_peak_bufs{0};
+static const int kSlots = 1024;
+static std::atomic<void *> g_slots[kSlots];
+
+static void track_alloc(void *p) {
+    for (int i = 0; i < kSlots; ++i) {
+        void *expect = nullptr;
+        if (g_slots[i].load(std::memory_order_relaxed) == nullptr && g_slots[i].compare_exchange_strong(expect, p)) {
+            long n = g_live_bufs.fetch_add(1) + 1;
+            long pk = g_peak_bufs.load();
+            while (n > pk && !g_peak_bufs.compare_exchange_weak(pk, n)) {}
+            return;
+        }
+    }
+}
+static void track_free(void *p) {
+    if (!p) return;
+    for (int i = 0; i < kSlots; ++i) {
+        void *expect = p;
+        if (g_slots[i].load(std::memory_order_relaxed) == p && g_slots[i].compare_exchange_strong(expect, nullptr)) { g_live_bufs.fetch_sub(1); return; }
+    }
+}
+void *operator new[](size_t n) {
+    void *p = malloc(n ? n : 1);
+    if (!p) throw std::bad_alloc();
+    size_t t = g_track_size.load(std::memory_order_relaxed);
+    if (t != 0 && n == t) track_alloc(p);
+    return p;
+}
+void operator delete[](void *p) noexcept { if (g_track_size.load(std::memory_order_relaxed) != 0) track_free(p); free(p); }
+void operator delete[](void *p, size_t) noexcept { if (g_track_size.load(std::memory_order_relaxed) != 0) track_free(p); free(p); }
+
 // ---------------------------------------------------------------- records (same format as the driver)
 static inline uint8_t payload_byte(unsigned tid, unsigned seq, unsigned i) { return (uint8_t)((tid * 37u + seq * 11u + i * 7u + 3u) % 251u); }
 
@@ -129,6 +171,7 @@ struct Sink {
     std::vector<size_t> lens;
     std::atomic<int> inside{0};
     std::atomic<bool> overlap{false};
+    std::atomic<bool> gate_closed{false};      // `fillhold`: the back end is held inside the callback
     uint32_t sink_us = 0;
 };
 
@@ -185,6 +228,7 @@ static bool guarded_cleanup(bool announce) {
 static void drop_pipe() {
     if (g_pipe) {
         if (g_live) guarded_cleanup(false);
+        g_track_size = 0;
         delete g_pipe; g_pipe = nullptr;
     }
     delete g_sink; g_sink = nullptr;
@@ -217,6 +261,56 @@ static void producer_main(const Prod &p, unsigned first_seq, std::atomic<bool> &
     }
 }
 
+// An append racing with cleanup() — OUTSIDE the property statement (it speaks of what was appended before
+// cleanup began).  Run in a forked child (fresh pipe object, its own sanitizer verdict) so that whatever the real
+// code does — lose the tail, leave the producer blocked for ever, trip assert(full_buffers_.empty()), race on
+// curr_buffer_ — is only DOCUMENTED (M-class line), never judged.  The parent has no other thread alive here.
+static const char *late_experiment(size_t size, size_t maxn, unsigned nrec) {
+    pid_t pid = fork();
+    if (pid < 0) return "fork-failed";
+    if (pid == 0) {
+        g_max_us = 0;
+        tbox::util::AsyncPipe pipe;
+        tbox::util::AsyncPipe::Config cfg; cfg.buff_size = size; cfg.buff_min_num = 1; cfg.buff_max_num = maxn; cfg.interval = 1;
+        if (!pipe.initialize(cfg)) _exit(29);
+        std::atomic<size_t> delivered{0};
+        pipe.setCallback([&](const void *, size_t n) { delivered += n; usleep(300); });
+        std::atomic<bool> started{false}, finished{false};
+        size_t appended = 0;
+        std::thread th([&] {
+            t_role = 1;
+            for (unsigned i = 0; i < nrec; ++i) {
+                std::vector<uint8_t> r = record_bytes(0, i, (unsigned)(3 * size));
+                started.store(true);
+                pipe.append(r.data(), r.size());
+                appended += r.size();
+            }
+            finished.store(true, std::memory_order_release);
+        });
+        while (!started.load()) std::this_thread::yield();
+        usleep(1500);
+        std::atomic<bool> cleaned{false};
+        std::thread wd([&] { t_role = -1; for (int i = 0; i < 150 && !(cleaned.load() && finished.load()); ++i) usleep(10000);
+                             if (!cleaned.load()) _exit(23); if (!finished.load()) _exit(22); });
+        pipe.cleanup();
+        cleaned.store(true);
+        wd.join();
+        th.join();
+        _exit(delivered.load() == appended ? 20 : 21);
+    }
+    int st = 0;
+    if (waitpid(pid, &st, 0) < 0) return "wait-failed";
+    if (WIFSIGNALED(st)) return WTERMSIG(st) == SIGABRT ? "abort" : "signal";
+    switch (WEXITSTATUS(st)) {
+        case 20: return "all-delivered";
+        case 21: return "data-lost";
+        case 22: return "producer-blocked";
+        case 23: return "cleanup-blocked";
+        case 97: case 98: case 99: return "sanitizer-report";
+        default: return "other";
+    }
+}
+
 static bool in_range(const std::string &w, uint64_t hi, uint64_t &v) { return vh::to_u64(w, v) && v <= hi; }
 
 int main() {
@@ -233,7 +327,11 @@ int main() {
             if (!g_pipe) g_pipe = new tbox::util::AsyncPipe;
             tbox::util::AsyncPipe::Config cfg;
             cfg.buff_size = a; cfg.buff_min_num = b; cfg.buff_max_num = c; cfg.interval = d;
+            g_live_bufs = 0; g_peak_bufs = 0;
+            for (auto &sl : g_slots) sl.store(nullptr);
+            g_track_size = (size_t)a;
             bool ok = g_pipe->initialize(cfg);
+            if (!ok) g_track_size = 0;
             if (ok) {
                 delete g_sink; g_sink = new Sink; g_sink->sink_us = g_sink_us;
                 Sink *s = g_sink;
@@ -243,6 +341,7 @@ int main() {
                     const uint8_t *q = static_cast<const uint8_t *>(p);
                     s->stream.insert(s->stream.end(), q, q + n);
                     if (s->sink_us) usleep(s->sink_us);
+                    while (s->gate_closed.load(std::memory_order_acquire)) usleep(200);
                     maybe_delay();
                     s->inside.fetch_sub(1);
                 });
@@ -271,6 +370,33 @@ int main() {
             for (auto &p : g_declared) for (auto &k : p.toks) if (k.kind != 'z') ++g_seq[p.tid];
             g_declared.clear();
             std::cout << "P run\n";
+        } else if (w[0] == "fillhold" && w.size() == 3 && in_range(w[1], 7, a) && in_range(w[2], 20000, b) && g_live) {
+            bool dup = false;
+            for (auto &q : g_declared) if (q.tid == a) dup = true;
+            if (dup) { std::cout << "bad-op\n"; std::cout.flush(); continue; }
+            Watchdog wd("fillhold", 3 * watchdog_ms(), true);
+            uint64_t waits0 = g_producer_waits.load();
+            g_sink->gate_closed.store(true, std::memory_order_release);
+            std::atomic<bool> go{true}, finished{false};
+            Prod p; p.tid = (unsigned)a; p.pace_us = 0; p.toks.push_back(Tok{'a', (unsigned)b});
+            unsigned seq0 = g_seq[p.tid];
+            std::thread th([&] { producer_main(p, seq0, go); finished.store(true, std::memory_order_release); });
+            int blocked = 0;
+            for (int i = 0; i < 2000; ++i) {            // up to ~2 s
+                if (finished.load(std::memory_order_acquire)) break;
+                if (g_producer_waits.load() > waits0 && g_sink->inside.load() == 1) { usleep(20000); if (!finished.load()) blocked = 1; break; }
+                usleep(1000);
+            }
+            long live = g_live_bufs.load();
+            std::cout << "M held live=" << live << " blocked=" << blocked << "\n";
+            g_sink->gate_closed.store(false, std::memory_order_release);
+            th.join();
+            ++g_seq[p.tid];
+            std::cout << "P fillhold\n";
+        } else if (w[0] == "late" && w.size() == 4 && in_range(w[1], 4096, a) && in_range(w[2], 64, b) && in_range(w[3], 200, c) &&
+                   a >= 1 && b >= 1 && !g_live) {
+            std::cout.flush();
+            std::cout << "M late outcome=" << late_experiment((size_t)a, (size_t)b, (unsigned)c) << "\n";
         } else if (w[0] == "sleep" && w.size() == 2 && in_range(w[1], 500, a)) {
             usleep((useconds_t)a * 1000);
             std::cout << "P sleep\n";
@@ -280,6 +406,7 @@ int main() {
                 std::cout << "P cleanup noop\n";
             } else {
                 guarded_cleanup(true);
+                g_track_size = 0;
                 g_live = false; g_declared.clear();
                 std::cout << "P cleanup ok\n";
                 std::string ks;
@@ -287,7 +414,7 @@ int main() {
                 std::cout << "K " << (ks.empty() ? "-" : ks) << "\n";
                 std::cout << "S " << vh::hex(g_sink->stream) << "\n";
                 std::cout << "P cb overlap=" << (g_sink->overlap.load() ? 1 : 0) << "\n";
-                std::cout << "I bp=" << g_producer_waits.load() << "\n";
+                std::cout << "I bp=" << g_producer_waits.load() << " peak=" << g_peak_bufs.load() << "\n";
             }
         } else {
             std::cout << "bad-op\n";
